@@ -370,6 +370,7 @@ func (g *VCGen) staticCall(callee *ssa.Function, c *ssa.CallCommon, pos token.Po
 	fc := g.eng.contractFor(callee)
 	if fc == nil {
 		if _, isClosure := c.Value.(*ssa.MakeClosure); !isClosure && len(callee.Blocks) > 0 && (callee.Synthetic != "" || g.eng.isInline(callee)) {
+			g.pendingInlineArgs = c.Args
 			return g.inlineCall(callee, g.argVals(c), pos)
 		}
 		if p := funcPkg(callee); p != nil && stdlibPure(p.Path()) {
